@@ -108,7 +108,8 @@ def par_program(draw, cfg, cache):
             else:
                 for _ in range(draw(st.integers(1, 3))):
                     blk.insert(draw(st.integers(0, len(blk))),
-                               ['qa', draw(st.sampled_from(['is_file', 'exists', 'read_text', 'get_size', 'declare_read'])), fp, 'METADATA'])
+                               [draw(st.sampled_from(['qa', 'qa', 'qn'])),
+                                draw(st.sampled_from(['is_file', 'exists', 'read_text', 'get_size', 'declare_read'])), fp, 'METADATA'])
     root = []
     if draw(st.sampled_from(range(4))) == 0 and pool:
         path = pool.pop(0)
